@@ -15,6 +15,11 @@ A *case* is a JSON-able dict
   txadv    ticks advanced inside the transaction before the pattern command (crosses no deadline)
   template [["lit", text] | ["arg", name], ...], args {name: text}   (invalidate; pattern = the substitution)
 
+  kind "iter": an iteration consumed STEP BY STEP with other commands between two steps (never raising must hold for such consumers too):
+  entry    "mem" | "facade" | "facade_secret";  size  None | n (the store's `size`: a full store evicts on a write of a new key)
+  cmd      "scan" | "get_match";  between  [[op, ...], ...]   between[i] = what the consumer does after the (i+1)-th item it was
+           handed: ["del", text] | ["set", text, valtok, ttl|None] | ["get", text] | ["adv", ticks] | ["delmatch", pattern]
+
 Key texts are mapped to model numbers by their position in the universe (store keys, then transaction keys).
 Values (`valtok`): `i:<int>` Python int, `t:<n>` the string 't<n>' (n < 1000), `n` a stored `None`, `e:<c>` the other
 values a pattern command must treat as plain values although they are falsy / odd (`e:s` '', `e:b` b'', `e:l` [],
@@ -149,6 +154,10 @@ def universe(case: dict) -> list[str]:
     for op in case.get("txops") or []:
         if op[0] not in PATTERN_OPS and op[1] not in u:
             u.append(op[1])
+    for ops in case.get("between") or []:
+        for op in ops:
+            if op[0] in ("del", "set", "get") and op[1] not in u:
+                u.append(op[1])
     return u
 
 
@@ -158,7 +167,8 @@ def op_pattern(case: dict, op) -> str:
 
 
 def all_patterns(case: dict) -> list[str]:
-    return [pattern_of(case)] + [op_pattern(case, op) for op in case.get("txops") or [] if op[0] in PATTERN_OPS]
+    return ([pattern_of(case)] + [op_pattern(case, op) for op in case.get("txops") or [] if op[0] in PATTERN_OPS]
+            + [op[1] for ops in case.get("between") or [] for op in ops if op[0] == "delmatch"])
 
 
 def pattern_of(case: dict) -> str:
@@ -204,10 +214,41 @@ def canon(case: dict) -> str:
 # ------------------------------------------------------------------------------------------------
 # model side
 
-def model_lines(case: dict) -> list[str]:
+def between_lines(case: dict, i: int, idx: dict) -> list[str]:
+    out = []
+    ops = case.get("between") or []
+    for op in ops[i] if i < len(ops) else []:
+        if op[0] == "del":
+            out.append(f"mdel {idx[op[1]]}")
+        elif op[0] == "set":
+            out.append(f"mset {idx[op[1]]} {op[2]} {'-' if op[3] is None else op[3]}")
+        elif op[0] == "get":
+            out.append(f"mget {idx[op[1]]}")
+        elif op[0] == "adv":
+            out.append(f"madv {op[1]}")
+        else:
+            out.append(f"delmatch {enc(op[1])}")
+    return out
+
+
+def model_lines(case: dict, obs: dict | None = None) -> list[str]:
     u = universe(case)
     idx = {t: i for i, t in enumerate(u)}
     lines = ["univ " + " ".join(enc(t) for t in u)]
+    if case["kind"] == "iter":
+        # the same sequence the consumer executed: step, what it did after the item, step, ... (`obs["steps"]`)
+        if case.get("size"):
+            lines.append(f"cap {case['size']}")
+        seen = {}
+        for text, ttl, val in case["keys"]:
+            seen[text] = f"{idx[text]}/{'-' if ttl is None else ttl}/{val}"
+        lines.append(f"store {case.get('adv', 0)} " + " ".join(seen.values()))
+        lines.append(f"itstart {'scan' if case['cmd'] == 'scan' else 'getmatch'} {enc(case['pattern'])}")
+        for i, item in enumerate((obs or {}).get("steps", [])):
+            lines.append("itnext")
+            if item != "end" and not item.startswith("E:"):
+                lines += between_lines(case, i, idx)
+        return lines
     ents = []
     seen = {}
     for text, ttl, val in case["keys"]:
@@ -356,6 +397,46 @@ async def _invalidating_call(cache, case: dict):
         return f"E:{type(exc).__name__}"
 
 
+async def _between(api, case: dict, i: int):
+    ops = case.get("between") or []
+    for op in ops[i] if i < len(ops) else []:
+        if op[0] == "del":
+            await api.delete(op[1])
+        elif op[0] == "set":
+            await api.set(op[1], val_of(op[2]), expire=None if op[3] is None else op[3] / 8)
+        elif op[0] == "get":
+            await api.get(op[1])
+        elif op[0] == "adv":
+            CLOCK.advance(op[1])
+        else:
+            await api.delete_match(op[1])
+
+
+async def exec_iter(case: dict, idx: dict) -> dict:
+    """an iteration consumed step by step; `steps` = what each `__anext__` handed out ('end', or 'E:<exception>')"""
+    api = await _make_api(case["entry"], case.get("size") or BIG)
+    await _fill(api, case)
+    it = (api.scan(case["pattern"]) if case["cmd"] == "scan" else api.get_match(case["pattern"])).__aiter__()
+    steps: list[str] = []
+    while True:
+        if len(steps) > 10000:
+            raise RuntimeError("an iteration over a finite snapshot does not end")
+        try:
+            item = await it.__anext__()
+        except StopAsyncIteration:
+            steps.append("end")
+            break
+        except Exception as exc:  # the property says: never raising
+            steps.append(f"E:{type(exc).__name__}")
+            break
+        if case["cmd"] == "scan":
+            steps.append(str(idx[item]) if item in idx else f"?{item!r}")
+        else:
+            steps.append(f"{idx[item[0]]}={show_val(item[1])}" if item[0] in idx else f"?{item[0]!r}")
+        await _between(api, case, len(steps) - 1)
+    return {"steps": steps, "res": steps[-1] if steps[-1].startswith("E:") else "U", "live": await _live(api, list(idx))}
+
+
 async def exec_case(case: dict) -> dict:
     """run one case on the real code; returns the canonical observations"""
     from cashews.wrapper.transaction import TransactionMode
@@ -366,6 +447,8 @@ async def exec_case(case: dict) -> dict:
     kind = case["kind"]
     pat = pattern_of(case)
     obs: dict = {}
+    if kind == "iter":
+        return await exec_iter(case, idx)
     if kind in ("mem", "facade", "facade_secret"):
         api = await _make_api(kind)
         await _fill(api, case)
@@ -413,8 +496,63 @@ def run_cases(cases: list[dict]) -> list[dict]:
     return vtime.run(go)
 
 
-def judge(case: dict, obs: dict, ans: str) -> tuple[list[str], list[str]]:
+def stable_keys(case: dict) -> list[str]:
+    """keys that match, are live when the iteration starts and that nothing the consumer does between the steps touches or
+    lets expire: they have to be yielded exactly once (provided they are still there at the end: eviction)"""
+    adv = case.get("adv", 0)
+    ops = [op for step in case.get("between") or [] for op in step]
+    total = adv + sum(op[1] for op in ops if op[0] == "adv")
+    named = {op[1] for op in ops if op[0] in ("del", "set", "get")}
+    out = []
+    for text, ttl, _val in case["keys"]:
+        if not pyglob(case["pattern"], text) or text in named:
+            continue
+        if ttl is not None and ttl <= total:
+            continue
+        if any(op[0] == "delmatch" and pyglob(op[1], text) for op in ops):
+            continue
+        out.append(text)
+    return out
+
+
+def judge_iter(case: dict, obs: dict, answers: list[str]) -> tuple[list[str], list[str]]:
+    u = universe(case)
+    steps = obs["steps"]
+    bad: list[str] = []
+    diff: list[str] = []
+    if steps[-1].startswith("E:"):
+        bad.append(f"step {len(steps)} of the {case['cmd']} iteration raised {steps[-1][2:]}")
+    items = [s.split("=")[0] for s in steps if s != "end" and not s.startswith("E:")]
+    if len(set(items)) != len(items):
+        bad.append(f"a key was yielded twice: {steps}")
+    for it in items:
+        if not it.isdigit():
+            bad.append(f"yielded {it}")
+        elif not pyglob(case["pattern"], u[int(it)]):
+            bad.append(f"yielded key {it} ({u[int(it)]!r}) does not match")
+    if not bad:
+        live_end = set() if obs["live"] == "-" else set(obs["live"].split(","))
+        vals = {k[0]: k[2] for k in case["keys"]}
+        for text in stable_keys(case):
+            i = str(u.index(text))
+            if case["cmd"] == "get_match" and is_bits(vals[text]):
+                continue        # get_match skips bit-field objects on purpose
+            if i in live_end and i not in items:
+                bad.append(f"key {i} ({text!r}) matched and stayed live and untouched through the whole iteration but was not yielded: {steps}")
+            if case["cmd"] == "get_match" and i in live_end and not is_bits(vals[text]):
+                got = [s for s in steps if s.split("=")[0] == i]
+                if got and got[0] != f"{i}={vals[text]}":
+                    bad.append(f"key {i} was yielded as {got[0]}, it holds {vals[text]}")
+    model = [a[len("model="):] if a.startswith("model=") else f"?{a}" for a in answers]      # the answers to the `itnext` lines
+    if model != steps and not steps[-1].startswith("E:"):
+        diff.append(f"iteration steps: implementation {steps}, model {model}")
+    return bad, diff
+
+
+def judge(case: dict, obs: dict, ans: str, answers: list[str] | None = None) -> tuple[list[str], list[str]]:
     """(property violations, model-only differences) of one executed case"""
+    if case["kind"] == "iter":
+        return judge_iter(case, obs, answers or [])
     pa = parse_answer(ans)
     if pa is None:
         return [], [f"driver answered {ans!r}"]
@@ -717,6 +855,55 @@ def multi_case(pl, first, w, cmd, pat, mode: str) -> dict:
     return {"kind": "tx", "mode": mode, "keys": keys, "adv": 16, "txops": [list(first), list(w)], "txadv": 0, "cmd": cmd, "pattern": pat}
 
 
+ITER_OPS = [[], [["del", "a.b"]], [["del", "a.c"]], [["del", "a.d"]], [["del", "axb"]], [["set", "a.e", "t:2", None]],
+            [["set", "zz", "t:2", None]], [["set", "a.d", "t:2", None]], [["delmatch", "a.d*"]], [["adv", 16]],
+            [["adv", 16], ["get", "a.c"]], [["get", "a.b"], ["get", "a.c"], ["set", "new", "i:1", None]]]
+
+
+def iter_space():
+    """one store - "a.b", "a.c" (ttl 12 ticks), "a.d" (holds None), "axb" - iterated with pattern a.* by scan / get_match on
+    Memory, the facade and the signed facade, the store unlimited or exactly full (`size` = 4: a write of a new key evicts
+    the least recently used one); after the first and after the second item the consumer does one of `ITER_OPS`: nothing,
+    delete each key, write a new matching / non-matching key, rewrite a key, delete_match, let the ttl elapse, let it elapse
+    and read the expired key (which purges it), touch two keys and write a new one (evicts a key not yet visited)"""
+    keys = [["a.b", None, "t:1"], ["a.c", 12, "t:2"], ["a.d", None, "n"], ["axb", None, "t:3"]]
+    for entry in ("mem", "facade", "facade_secret"):
+        for size in (None, 4):
+            for cmd in ("scan", "get_match"):
+                for o1 in ITER_OPS:
+                    for o2 in ITER_OPS:
+                        yield {"kind": "iter", "entry": entry, "size": size, "keys": keys, "adv": 0, "cmd": cmd, "pattern": "a.*",
+                               "between": [o1, o2]}
+
+
+def gen_iter(rng, alphabet: str = FULL_ALPHABET) -> dict:
+    """a random store and pattern, iterated step by step; between the steps the consumer deletes, writes (into a full store
+    40% of the time), reads, deletes by pattern and lets time pass"""
+    pat = rand_pattern(rng, alphabet, 8)
+    adv = rng.choice([0, 0, 8])
+    texts = gen_keys(rng, pat, alphabet, rng.randint(2, 7))
+    keys = [store_entry(rng, t, adv) for t in texts]
+    extra = gen_keys(rng, pat, alphabet, 2)
+    between = []
+    for _ in range(len(texts)):
+        ops = []
+        for _ in range(rng.choice([0, 1, 1, 2])):
+            r = rng.random()
+            if r < 0.35:
+                ops.append(["del", rng.choice(texts)])
+            elif r < 0.6:
+                ops.append(["set", rng.choice(extra + texts) if extra else rng.choice(texts), rand_val(rng, False), rng.choice([None, None, 80])])
+            elif r < 0.75:
+                ops.append(["get", rng.choice(texts)])
+            elif r < 0.9:
+                ops.append(["adv", rng.choice([4, 8, 40])])
+            else:
+                ops.append(["delmatch", rng.choice([pat, pat[:-1] + "*", rand_pattern(rng, alphabet, 4)])])
+        between.append(ops)
+    return {"kind": "iter", "entry": rng.choice(["mem", "facade", "facade_secret"]), "size": len(texts) if rng.random() < 0.4 else None,
+            "keys": keys, "adv": adv, "cmd": rng.choice(["scan", "get_match"]), "pattern": pat, "between": between}
+
+
 def value_grid() -> list[tuple[str, dict]]:
     """Every value of the alphabet in every position a pattern command can meet it (fully enumerated, no randomness).
     One subject key 'a.b' (matches 'a.*') next to a matching bystander 'a.c' with an ordinary value and a
@@ -821,6 +1008,23 @@ def interesting(case: dict) -> list[str]:
             tags.append("tx_matching_key_only_in_overlay")
     if case["kind"] == "invalidate" and sel:
         tags.append("invalidate_template_selects_a_key")
+    if case["kind"] == "iter":
+        between = case.get("between") or []
+        flat = [op for step in between for op in step]
+        tags.append("iter_consumed_step_by_step")
+        if any(op[0] == "del" and op[1] in sel for op in flat) or any(op[0] == "delmatch" and any(pyglob(op[1], k) for k in sel) for op in flat):
+            tags.append("iter_matching_key_removed_between_steps")
+        if case.get("size") and any(op[0] == "set" and op[1] not in [k[0] for k in case["keys"]] for op in flat):
+            tags.append("iter_write_into_a_full_store_between_steps")
+        if any(op[0] == "adv" for op in flat):
+            tags.append("iter_time_passes_between_steps")
+            total = adv + sum(op[1] for op in flat if op[0] == "adv")
+            if any(k[1] is not None and adv < k[1] <= total and pyglob(pat, k[0]) for k in case["keys"]):
+                tags.append("iter_matching_key_expires_between_steps")
+                if any(op[0] == "get" for op in flat):
+                    tags.append("iter_expired_key_purged_between_steps")
+        if any(op[0] == "set" and op[1] in sel for op in flat):
+            tags.append("iter_matching_key_rewritten_between_steps")
     # --- values: what the reader sees under each key when the pattern command runs
     visible = {k[0]: k[2] for k in case["keys"] if k[0] in live}
     store_val = dict(visible)
